@@ -9,6 +9,7 @@ import (
 	"fmt"
 	"math/rand"
 	"os"
+	"path"
 	"path/filepath"
 	"sort"
 	"strings"
@@ -223,7 +224,7 @@ type Node struct {
 }
 
 func (n Node) M() M {
-	return M{"p": n.P, "kind": n.Kind, "mode": n.Mode, "mt": n.Mt, "size": n.Size, "link": n.Link, "tk": n.Tk, "cid": n.Cid}
+	return M{"p": n.P, "kind": n.Kind, "mode": n.Mode, "mt": n.Mt, "size": n.Size, "link": n.Link, "tk": n.Tk, "cid": n.Cid, "rt": ""}
 }
 
 func cidOf(b []byte) string {
@@ -273,8 +274,22 @@ func Materialise(root string, nodes []Node) {
 
 func nodesM(nodes []Node) []M {
 	out := make([]M, 0, len(nodes))
+	isFile := map[string]bool{}
 	for _, n := range nodes {
-		out = append(out, n.M())
+		if n.Kind == "file" {
+			isFile[n.P] = true
+		}
+	}
+	for _, n := range nodes {
+		m := n.M()
+		// rt: where a symbolic link leads when it (directly) names a regular file of the tree - a projection of the file
+		// system the code under test reads through os.Stat
+		if n.Kind == "link" && n.Link != "" && !strings.HasPrefix(n.Link, "/") {
+			if t := path.Clean(path.Join(path.Dir(n.P), n.Link)); isFile[t] {
+				m["rt"] = t
+			}
+		}
+		out = append(out, m)
 	}
 	return out
 }
